@@ -282,6 +282,9 @@ func CheckC06(v *View, st Stats) []Violation {
 				n++
 				if vol.PersistentVolumeClaim == nil || vol.PersistentVolumeClaim.ClaimName != want {
 					out = append(out, viol("C06", "volume-binding", "pod %s: volume %s is not bound to claim %s", pod.Name, t.Name, want))
+				} else if vol.PersistentVolumeClaim.ReadOnly {
+					// the claim is the ordinal's storage: bound for reading and writing, as the built-in controller binds it
+					out = append(out, viol("C06", "volume-binding", "pod %s: volume %s is bound to claim %s read-only", pod.Name, t.Name, want))
 				}
 			}
 			if n != 1 {
